@@ -17,7 +17,7 @@ Definition opt_eqb {T} (eqb : T -> T -> bool) (a b : option T) : bool :=
 Record ogen := {
   b_roll : list (nat * nat);                    (* per individual: environment steps taken, learn() calls *)
   b_tested : list (nat * nat * nat * nat);      (* at the end of its test(): index, steps[-1], len(steps), len(fitness) *)
-  b_elite : option nat;                         (* position of the individual the elite was cloned from *)
+  b_sel : bool;                                 (* tournament selection ran in this generation *)
   b_after : list (nat * nat * nat * nat * nat); (* population the generation ends with:
                                                    index, steps[-1], len(steps), len(fitness), env steps of the lineage *)
   b_saved : option (list nat)                   (* checkpoint files written: the step numbers in their names ([] = overwritten files) *)
@@ -38,7 +38,7 @@ Definition check_gen (x : goutput * list agent) (b : ogen) : bool :=
   let '(o, p) := x in
   list_eqb roll_eqb (o_roll o) (b_roll b) &&
   list_eqb tested_eqb (o_tested o) (b_tested b) &&
-  opt_eqb Nat.eqb (o_elite o) (b_elite b) &&
+  Bool.eqb (o_evolved o) (b_sel b) && o_elite_ok o &&
   list_eqb after_eqb p (b_after b) &&
   match b_saved b with
   | None => negb (o_saved o)
